@@ -161,6 +161,14 @@ def roundtrip(r, fmt):
         ff = FileFormat.XML if fmt == "xml" else FileFormat.PROTOBUF
         # "read_la": the file is opened with lanelet assignment; everything the file states must read back the same
         sc2, pps2 = CommonRoadFileReader(path, file_format=ff).open(lanelet_assignment=bool(r.get("read_la")) and la_domain(r))
+        if r.get("network_only"):
+            # the reader's second entry point: only the lanelet network of the file
+            net_only = CommonRoadFileReader(path, file_format=ff).open_lanelet_network()
+            a, b = sn.snap_network(sc2.lanelet_network), sn.snap_network(net_only)
+            diffs = sn.compare(a, b, lambda p: 0)
+            if diffs:
+                raise Violation("open-lanelet-network-differs:" + sn.strip_indices(diffs[0][0]),
+                                "open_lanelet_network() vs open(): %s: %r vs %r" % diffs[0])
         return data, sc2, pps2
     finally:
         shutil.rmtree(d, ignore_errors=True)
